@@ -22,6 +22,7 @@ TRUSTED = ["torch.fft / numpy.fft compute the defining DFT sums; torch index_add
 ASSUMPTIONS = [
     "one model call handles one batch element; the batch/mode broadcasting of the torch code is exercised by the harness looping over the batch",
     "`self` of every Ptychography/Probe method is a real preprocessed Ptychography object from props/ptycho_tiny.py: bound calls where the instance fits (projection, forward_operator, detector, patches), and for multislice / arbitrary-physics cases an unbound call on a `Borrow` of a real instance that overrides only num_slices, _propagators (resp. roi_shape, probe_params, probe_tilt of the probe model); bare attribute stubs are used only if the factory itself fails (counted as self=bare-stub / stub-insufficient)",
+    "the `history` stream checks the no-hidden-state contract that the identities presuppose (results never change after they are returned, inputs are not modified, results of different calls do not share storage) by keeping the results of 2-4 same-shaped calls of every operator and re-evaluating the identities on ALL of them; the heap-free Lean model cannot express aliasing, so this part is measured only",
     "an exception that escapes the real code on a valid input is reported as a predicate failure (key raises:<stream>:<type>) with that input",
     "mixed-state exactness predicate is evaluated only at pixels whose input far field is not exactly zero",
     "negative flat indices are outside the stated domain (torch indexing wraps them, index_add_ rejects them)",
@@ -862,6 +863,292 @@ def s_instance(ctx, drv, I, case):
     ctx.sample({k: case[k] for k in ("stream", "rseed", "shape", "modes", "scan", "obj_type", "descan")}, limit=7)
 
 
+# ----------------------------------------------------------------------------- stream: call histories (state / aliasing)
+def _bits(x):
+    """exact byte content of a tensor / array (NaN-safe bit comparison)"""
+    if hasattr(x, "detach"):
+        x = x.detach().resolve_conj().resolve_neg().cpu().contiguous().numpy()
+    return (str(x.dtype), tuple(x.shape), np.ascontiguousarray(x).tobytes())
+
+
+def _snap(x):
+    return x.detach().clone() if hasattr(x, "detach") else np.array(x, copy=True)
+
+
+def _storage(x):
+    if hasattr(x, "untyped_storage"):
+        return None if x.numel() == 0 else ("t", x.untyped_storage().data_ptr())
+    return None
+
+
+def _share(a, b):
+    if hasattr(a, "untyped_storage") and hasattr(b, "untyped_storage"):
+        sa, sb = _storage(a), _storage(b)
+        return sa is not None and sa == sb
+    if isinstance(a, np.ndarray) and isinstance(b, np.ndarray):
+        return a.size > 0 and b.size > 0 and np.shares_memory(a, b)
+    return False
+
+
+def _aslist(out):
+    if isinstance(out, (tuple, list)):
+        return [o for o in out if hasattr(o, "shape")]
+    return [out]
+
+
+def run_history(ctx, case, op, calls):
+    """`calls`: list of (thunk, [input tensors/arrays]).  Every thunk is called in order and ALL results
+    are kept.  Afterwards: (1) every kept result is bit-identical to the clone taken right after its
+    call returned (outputs must not change once returned), (2) every input is bit-identical to its
+    snapshot taken before the call, (3) results of different calls do not share storage.
+    Returns the kept results (list per call)."""
+    kept, clones, snaps = [], [], []
+    for thunk, inputs in calls:
+        snaps.append([_bits(x) for x in inputs])
+        outs = _aslist(thunk())
+        kept.append(outs)
+        clones.append([_bits(_snap(o)) for o in outs])
+    ok = True
+    for i, (thunk, inputs) in enumerate(calls):
+        if [_bits(x) for x in inputs] != snaps[i]:
+            ctx.pred_fail(f"history-input-modified:{op}", f"{op}: an input of call {i + 1} of {len(calls)} was modified by the call history", case,
+                          observed="input bytes changed", required="inputs are left untouched")
+            ok = False
+        if [_bits(o) for o in kept[i]] != clones[i]:
+            ctx.pred_fail(f"history-result-changed:{op}", f"{op}: the result returned by call {i + 1} of {len(calls)} changed after later calls of the same operator", case,
+                          observed="kept result differs bitwise from its clone taken at return time", required="returned results never change")
+            ok = False
+    for i in range(len(kept)):
+        for j in range(i + 1, len(kept)):
+            if any(_share(a, b) for a in kept[i] for b in kept[j]):
+                ctx.pred_fail(f"history-aliasing:{op}", f"{op}: results of call {i + 1} and call {j + 1} share storage", case,
+                              observed="same untyped_storage().data_ptr()", required="independent results")
+                ok = False
+    ctx.dist[f"history.{op}.calls={len(calls)}"] += 1
+    ctx.dist[f"history.contract_ok={ok}"] += 1
+    return kept      # the identities are evaluated on the kept results in any case
+
+
+def s_history(ctx, drv, I, case):
+    """2-4 calls of one operator with same-shaped inputs, all results kept: results must not change after they
+    are returned, inputs must not be modified, results must not alias each other, and the operator identities
+    (adjointness, additivity, energy, idempotence) must hold for EVERY kept result, not only the latest."""
+    from qv.prng import Rng
+    torch = I.torch
+    rng = Rng(case["rseed"])
+    op = rng.weighted([("sum_patches", 6), ("get_obj_patches", 2), ("translation", 2), ("shift", 2), ("propagators", 2),
+                       ("propagate", 1), ("overlap", 2), ("forward_operator", 2), ("detector", 1), ("projection", 3)])
+    k = rng.randint(2, 4)
+    grad = rng.chance(0.3)
+    case.update({"op": op, "calls": k, "requires_grad": grad})
+    ctx.count()
+    ctx.dist[f"history.op={op}"] += 1
+    ctx.dist[f"history.requires_grad={grad}"] += 1
+    with (torch.enable_grad() if grad else torch.no_grad()):
+        _history_body(ctx, I, case, rng, op, k, grad)
+    ctx.sample({kk: case[kk] for kk in case if kk != "note"}, limit=8)
+
+
+def _history_body(ctx, I, case, rng, op, k, grad):
+    torch = I.torch
+
+    def rg(t):
+        if grad and (t.is_floating_point() or t.is_complex()):
+            t.requires_grad_(True)
+        return t
+
+    def ints(a):
+        a = np.asarray(a.detach().resolve_conj().numpy() if hasattr(a, "detach") else a).reshape(-1)
+        return [complex(int(round(z.real)), int(round(z.imag))) for z in a.astype(np.complex128)]
+
+    if op in ("sum_patches", "get_obj_patches"):
+        H, W = rng.randint(2, 8), rng.randint(2, 8)
+        B, r, c = rng.randint(1, 3), rng.randint(1, 6), rng.randint(1, 6)
+        same_idx = rng.chance(0.5)
+        idxs = [wrap_indices(rng, H, W, B, r, c) if rng.chance(0.6) else iarr(rng, (B, r, c), 0, H * W - 1)]
+        for _ in range(k):
+            idxs.append(idxs[0] if same_idx else (wrap_indices(rng, H, W, B, r, c) if rng.chance(0.6) else iarr(rng, (B, r, c), 0, H * W - 1)))
+        itype = rng.choice([torch.int32, torch.int64])
+        idx_t = [T(I, ix, itype) for ix in idxs]
+        dt = rng.choice(["float32", "float64", "complex64", "complex128"] + (["int64", "base-float32", "base-float64"] if op == "sum_patches" else []))
+        case.update({"H": H, "W": W, "idx_shape": [B, r, c], "dtype": dt, "same_indices": same_idx})
+        ctx.mark(("history", op, dt, grad, k, same_idx))
+        ctx.dist[f"history.{op}.dtype={dt}"] += 1
+        cplx = dt.startswith("complex")
+        tdt = getattr(torch, dt.replace("base-", ""))
+        if op == "sum_patches":
+            fn = I.pu.sum_patches_base if dt in ("int64", "base-float32", "base-float64") else I.pu.sum_patches
+            ps = []
+            for _ in range(k):
+                a = iarr(rng, (B, r, c)) + (1j * iarr(rng, (B, r, c)) if cplx else 0)
+                t = T(I, a if cplx else a.real, tdt)
+                ps.append(rg(t) if dt != "int64" else t)
+            # the additivity call S(p1+p2) is part of the history (last call), on the indices of call 1
+            psum = (ps[0].detach() + ps[1].detach()) if same_idx else None
+            calls = [((lambda p=p, ix=ix: fn(p, ix, (H, W))), [p, ix]) for p, ix in zip(ps, idx_t[:k])]
+            if psum is not None:
+                calls.append(((lambda: fn(psum, idx_t[0], (H, W))), [psum, idx_t[0]]))
+            kept = run_history(ctx, case, op, calls)
+            if kept is None:
+                return
+            x = iarr(rng, (H, W)) + (1j * iarr(rng, (H, W)) if cplx else 0)
+            xi = ints(x)
+            for i in range(k):      # exact adjointness for EVERY kept result
+                gi = [xi[j] for j in idxs[i].reshape(-1).tolist()]
+                lhs = sum(a.conjugate() * b for a, b in zip(gi, ints(ps[i])))
+                rhs = sum(a.conjugate() * b for a, b in zip(xi, ints(kept[i][0])))
+                if lhs != rhs:
+                    ctx.pred_fail(f"history-adjoint:{op}", f"<extract(x), p_{i + 1}> != <x, S(p_{i + 1})> for the kept result of call {i + 1} of {len(calls)}", case,
+                                  observed=str(lhs), required=str(rhs))
+            if psum is not None and [a + b for a, b in zip(ints(kept[0][0]), ints(kept[1][0]))] != ints(kept[-1][0]):
+                ctx.pred_fail(f"history-additive:{op}", "S(p1) + S(p2) != S(p1 + p2) with all three results kept", case,
+                              observed="mismatch", required="exact equality (integer-valued data)")
+        else:
+            objs = []
+            for _ in range(k):
+                a = iarr(rng, (2, H, W)) + (1j * iarr(rng, (2, H, W)) if cplx else 0)
+                objs.append(rg(T(I, a if cplx else a.real / 4.0, tdt)))
+            calls = [((lambda o=o, ix=ix: I.Obj._get_obj_patches(None, o, ix)), [o, ix]) for o, ix in zip(objs, idx_t[:k])]
+            kept = run_history(ctx, case, op, calls)
+            if kept is None:
+                return
+            for i in range(k):      # every kept result is still the gather of ITS object
+                on = objs[i].detach().numpy()
+                ref = (on if cplx else np.exp(1j * on.astype(np.float64))).reshape(2, -1)[:, idxs[i].reshape(-1)].reshape((2,) + idxs[i].shape)
+                pred(ctx, f"history-gather:{op}", f"kept patches of call {i + 1} are no longer the gather of their object", case,
+                     kept[i][0].detach().numpy(), ref, 0.0 if cplx else 1e-6, "history gather")
+        return
+
+    nr, nc = rng.choice(INST_SHAPES) if op in ("forward_operator", "overlap", "projection") else gen_shape(rng)
+    case.update({"shape": [nr, nc]})
+    f64 = rng.chance(0.5)
+    rdt, cdt = (torch.float64, torch.complex128) if f64 else (torch.float32, torch.complex64)
+    tol = TOL64 if f64 else TOL32
+    ctx.mark(("history", op, f64, grad, k, psig(nr, nc)))
+    ctx.dist[f"history.{op}.precision={'64' if f64 else '32'}"] += 1
+    case.update({"float64": f64})
+
+    if op == "translation":
+        use_np = rng.chance(0.3) and not grad
+        poss = [np.array([[dy(rng, -5, 5, 64), dy(rng, -5, 5, 64)]]) for _ in range(k)]
+        poss.append(poss[0] + poss[1])
+        ins = [p if use_np else rg(T(I, p, rdt)) for p in poss]
+        kept = run_history(ctx, case, op, [((lambda p=p: I.pu.fourier_translation_operator(p, (nr, nc))), [p]) for p in ins])
+        if kept is None:
+            return
+        tn = [np.asarray(o[0].detach().numpy() if hasattr(o[0], "detach") else o[0]) for o in kept]
+        pred(ctx, "history-ramp-unit", "kept translation operators are not unit modulus", case, np.abs(np.stack(tn)), np.ones((k + 1, 1, nr, nc)), tol, "history |ramp|=1")
+        pred(ctx, "history-ramp-additive", "T(s)*T(t) != T(s+t) with all three kept", case, tn[0] * tn[1], tn[-1], tol, "history ramp additivity")
+    elif op == "shift":
+        use_np = rng.chance(0.3) and not grad
+        xs = [carr(rng, (nr, nc)) for _ in range(k)]
+        poss = [np.array([[dy(rng, -5, 5, 64), dy(rng, -5, 5, 64)]]) for _ in range(k)]
+        xin = [x.astype(np.complex128 if f64 else np.complex64) if use_np else rg(T(I, x, cdt)) for x in xs]
+        pin = [p.astype(np.float64 if f64 else np.float32) if use_np else T(I, p, rdt) for p in poss]
+        kept = run_history(ctx, case, op, [((lambda x=x, p=p: I.pu.fourier_shift_expand(x, p)), [x, p]) for x, p in zip(xin, pin)])
+        if kept is None:
+            return
+        for i in range(k):
+            y = np.asarray(kept[i][0].detach().numpy() if hasattr(kept[i][0], "detach") else kept[i][0])
+            pred(ctx, "history-shift-energy", f"kept shifted array of call {i + 1} lost its energy", case,
+                 np.array([np.sum(np.abs(y) ** 2)]), np.array([np.sum(np.abs(xs[i]) ** 2)]), tol, "history shift energy")
+            back = I.pu.fourier_shift_expand(kept[i][0], -pin[i])      # shifting the KEPT result back must give the input
+            back = np.asarray(back.detach().numpy() if hasattr(back, "detach") else back)[0, 0]
+            pred(ctx, "history-shift-inverse", f"shift(kept result of call {i + 1}, -s) != x", case, back, xs[i], tol, "history shift inverse")
+    elif op == "propagators":
+        sr, sc, energy, thr, thc = gen_physics(rng)
+        d = [dy(rng, 1, 12, 8) for _ in range(k)]
+        dzl = [[di] for di in d] + [[d[0] + d[1]]]
+        kept = run_history(ctx, case, op, [((lambda z=z: impl_propagators(I, ctx, nr, nc, sr, sc, energy, thr, thc, 2, z)), []) for z in dzl])
+        if kept is None:
+            return
+        pn = [o[0].detach().numpy().astype(np.complex128)[0] for o in kept]
+        pred(ctx, "history-prop-unit", "kept propagators are not unit modulus", case, np.abs(np.stack(pn)), np.ones((k + 1, nr, nc)), 1e-5, "history |propagator|=1")
+        pred(ctx, "history-prop-additive", "P(d1)*P(d2) != P(d1+d2) with all three kept", case, pn[0] * pn[1], pn[-1], TOL32, "history propagator additivity")
+    elif op == "propagate":
+        sr, sc, energy, thr, thc = gen_physics(rng)
+        d1 = dy(rng, 1, 12, 8)
+        Q = impl_propagators(I, ctx, nr, nc, sr, sc, energy, thr, thc, 3, [d1, -d1]).to(cdt)
+        xs = [carr(rng, (2, nr, nc)) for _ in range(k)]
+        xin = [rg(T(I, x, cdt)) for x in xs]
+        which = rng.choice(["base", "obj"])
+        f = (lambda a, q: I.Base._propagate_array(None, a, q)) if which == "base" else (lambda a, q: I.Obj._propagate_array(None, a, q))
+        kept = run_history(ctx, case, op, [((lambda x=x: f(x, Q[0])), [x, Q]) for x in xin])
+        if kept is None:
+            return
+        for i in range(k):
+            back = f(kept[i][0], Q[1]).detach().numpy()
+            pred(ctx, "history-prop-inverse", f"prop(kept result of call {i + 1}, -d) != a", case, back, xs[i], TOL32, "history propagation inverse")
+    elif op in ("overlap", "forward_operator"):
+        M = rng.randint(1, 3)
+        B = rng.randint(1, 2)
+        case.update({"modes": M})
+        if op == "overlap":
+            S = rng.randint(1, 3)
+            sr, sc, energy, thr, thc = gen_physics(rng)
+            props = impl_propagators(I, ctx, nr, nc, sr, sc, energy, thr, thc, S, [dy(rng, 1, 12, 8) for _ in range(S - 1)])
+            st = ptycho_self(I, ctx, M, S, props)
+            desc = [None] * k
+        else:
+            S = 1
+            st = real_instance(ctx, M, (nr, nc))
+            if st is None:
+                return
+            desc = [None if rng.chance(0.3) else T(I, np.array([[dy(rng, -2, 2, 64), dy(rng, -2, 2, 64)] for _ in range(B)]), rdt) for _ in range(k)]
+        phis = [rarr(rng, (S, B, nr, nc), -3, 3, 64) for _ in range(k)]
+        pats = [rg(T(I, np.exp(1j * ph), cdt)) for ph in phis]
+        prbs = [rg(T(I, carr(rng, (M, B, nr, nc)), cdt)) for _ in range(k)]
+        if op == "overlap":
+            calls = [((lambda a=a, b=b: st.overlap_projection(a, b)), [a, b]) for a, b in zip(pats, prbs)]
+        else:
+            calls = [((lambda a=a, b=b, dsc=dsc: st.forward_operator(a, b, dsc)), [a, b] + ([dsc] if dsc is not None else [])) for a, b, dsc in zip(pats, prbs, desc)]
+        kept = run_history(ctx, case, op, calls)
+        if kept is None:
+            return
+        for i in range(k):      # pure-phase energy for EVERY kept exit wave
+            ex = kept[i][1].detach().numpy().astype(np.complex128)
+            pr = prbs[i].detach().numpy().astype(np.complex128)
+            pred(ctx, f"history-purephase-energy:{op}", f"kept exit wave of call {i + 1} does not carry the probe intensity (pure-phase patches)", case,
+                 np.sum(np.abs(ex) ** 2, axis=(0, 2, 3)), np.sum(np.abs(pr) ** 2, axis=(0, 2, 3)), 1e-5 if S > 1 else tol, "history pure-phase energy")
+    elif op == "detector":
+        M, B = rng.randint(1, 3), rng.randint(1, 2)
+        ws = [carr(rng, (M, B, nr, nc)) for _ in range(k)]
+        win = [rg(T(I, w, cdt)) for w in ws]
+        det = I.Det()
+        kept = run_history(ctx, case, op, [((lambda w=w: det.forward(w)), [w]) for w in win])
+        if kept is None:
+            return
+        for i in range(k):
+            pred(ctx, "history-detector-parseval", f"kept detector image of call {i + 1}: summed intensity != exit-wave intensity", case,
+                 kept[i][0].detach().numpy().astype(np.float64).sum(axis=(1, 2)), np.sum(np.abs(ws[i]) ** 2, axis=(0, 2, 3)), tol, "history detector Parseval")
+    elif op == "projection":
+        M, B = rng.weighted([(1, 1), (2, 2), (3, 2)]), rng.randint(1, 2)
+        case.update({"modes": M})
+        st = real_instance(ctx, M) or ptycho_self(I, ctx, M, 1, None)
+        As = [rarr(rng, (B, nr, nc), 0, 2) for _ in range(k)]
+        for A in As:
+            for i in range(A.size):
+                if rng.chance(0.15):
+                    A.reshape(-1)[i] = 0.0
+        xs = [carr(rng, (M, B, nr, nc)) for _ in range(k)]
+        Ain = [T(I, A, rdt) for A in As]
+        xin = [rg(T(I, x, cdt)) for x in xs]
+        which = rng.choice(["fourier_projection", "gradient_step"])
+        case.update({"method": which})
+        f = getattr(st, which)
+        kept = run_history(ctx, case, f"{which}", [((lambda A=A, x=x: f(A, x)), [A, x]) for A, x in zip(Ain, xin)])
+        if kept is None:
+            return
+        sk = "single" if M == 1 else "mixed"
+        for i in range(k):      # exactness for EVERY kept projection
+            P = kept[i][0].detach().numpy().astype(np.complex128)
+            if which == "gradient_step":
+                P = P + xs[i]
+            good = np.ones_like(As[i], dtype=bool) if M == 1 else (oracle_amplitudes(xs[i]) != 0)
+            pred(ctx, f"history-proj-exact:{sk}", f"kept projection of call {i + 1} no longer has the measured amplitudes", case,
+                 np.where(good, oracle_amplitudes(P), As[i]), As[i], tol, f"history projection exactness {sk}")
+
+
 STREAMS = {           # name: (function, quick count, thorough count)
     "gs": (s_gs, 250, 4000),
     "shiftint": (s_shiftint, 100, 1500),
@@ -869,7 +1156,8 @@ STREAMS = {           # name: (function, quick count, thorough count)
     "prop": (s_prop, 110, 2000),
     "forward": (s_forward, 110, 2000),
     "proj": (s_proj, 200, 3000),
-    "instance": (s_instance, 60, 600),
+    "instance": (s_instance, 50, 600),
+    "history": (s_history, 130, 2500),
 }
 
 
